@@ -46,18 +46,18 @@ func xmlMap(src []byte, prefix string, rootMode xmlMode, decide func(path []stri
 	m.Set(0, len(src), Unclassified, prefix+"xml.markup")
 	var path []string
 	modes := []xmlMode{rootMode}
+	zones := []string{"document"}
+	pendingZone := ""
 	pos := 0
 	cur := func() xmlMode { return modes[len(modes)-1] }
+	// regions are named after the innermost element whose mode was set
+	// explicitly (SignedInfo, Object, license, SignatureValue, ...), "document"
+	// for the rest of the tree
 	region := func() string {
-		if len(path) == 0 {
-			return prefix + "xml.document-level"
+		if pendingZone != "" {
+			return prefix + "xml." + pendingZone
 		}
-		// name the region after the two innermost elements
-		k := len(path) - 2
-		if k < 0 {
-			k = 0
-		}
-		return prefix + "xml." + strings.Join(path[k:], "/")
+		return prefix + "xml." + zones[len(zones)-1]
 	}
 	for _, t := range toks {
 		start := pos
@@ -105,10 +105,25 @@ func xmlMap(src []byte, prefix string, rootMode xmlMode, decide func(path []stri
 		case xmlgen.Start:
 			path = append(path, localName(t.Name))
 			md := decide(path)
+			pendingZone = ""
 			if md == xInherit {
 				md = cur()
 				if md == xBase64 || md == xBase64Cert {
 					md = xUnclassified
+				}
+			} else {
+				pendingZone = localName(t.Name)
+				if n := len(path); n >= 2 && (pendingZone == "SignedInfo" || pendingZone == "SignatureValue" || pendingZone == "X509Certificate" || pendingZone == "KeyInfo" || pendingZone == "Signature") {
+					// tell the outer and the nested signature apart
+					depth := 0
+					for _, p := range path {
+						if p == "Signature" {
+							depth++
+						}
+					}
+					if depth > 1 {
+						pendingZone = "nested-" + pendingZone
+					}
 				}
 			}
 			p := pos + 1
@@ -135,12 +150,19 @@ func xmlMap(src []byte, prefix string, rootMode xmlMode, decide func(path []stri
 			} else {
 				p++
 				modes = append(modes, md)
+				if pendingZone != "" {
+					zones = append(zones, pendingZone)
+				} else {
+					zones = append(zones, zones[len(zones)-1])
+				}
 			}
+			pendingZone = ""
 			pos = p
 		case xmlgen.End:
 			pos += 2 + len(t.Name) + len(t.Tail) + 1
 			path = path[:len(path)-1]
 			modes = modes[:len(modes)-1]
+			zones = zones[:len(zones)-1]
 		}
 	}
 	if pos != len(src) {
